@@ -1597,7 +1597,9 @@ class Segments:
         """
         if self.segments:
             prev_seg = self.segments[-1]
-            if prev_seg.mode == segment.mode and prev_seg.encoding == segment.encoding:
+            group = {consts.MODE_NUMERIC: 3, consts.MODE_ALPHANUMERIC: 2}.get(segment.mode, 1)
+            if prev_seg.mode == segment.mode and prev_seg.encoding == segment.encoding \
+                    and prev_seg.char_count % group == 0:
                 # Merge segment with previous segment
                 segment = _Segment(prev_seg.bits + segment.bits,
                                    prev_seg.char_count + segment.char_count,
